@@ -78,6 +78,7 @@ class ConcurrentInvocation(BaseInvocation[Params, Result]):
             self.task.logger.info(f"Sync invocation:{self.invocation_id} started")
             self._status = InvocationStatus.RUNNING
             context._get_sync_inv_context_storage()[self.app.app_id] = self
+            self.wf_deterministic_executor = None  # every execution replays from the start
             result = run_task_sync(self.task.func, **self.arguments.kwargs)
             self._status = InvocationStatus.SUCCESS
             self.task.logger.info(f"Sync invocation:{self.invocation_id} finished")
